@@ -98,16 +98,23 @@ func vecSearchOpen(seg segment.Segment, field string, q []float32, k int64, exce
 }
 
 func searchHandle(vi segment.VectorIndex, q []float32, k int64, filter bool, eligible []uint64) ([]vecPair, error) {
-	var pl segment.VecPostingsList
-	var err error
-	if filter {
-		pl, err = vi.SearchWithFilter(q, k, eligible, nil)
-	} else {
-		pl, err = vi.Search(q, k, nil)
-	}
+	pl, err := startSearch(vi, q, k, filter, eligible)
 	if err != nil {
 		return nil, err
 	}
+	return readVecList(pl)
+}
+
+// startSearch runs the search and returns the result list unread.
+func startSearch(vi segment.VectorIndex, q []float32, k int64, filter bool, eligible []uint64) (segment.VecPostingsList, error) {
+	if filter {
+		return vi.SearchWithFilter(q, k, eligible, nil)
+	}
+	return vi.Search(q, k, nil)
+}
+
+// readVecList drains a result list into sorted (doc, score) pairs.
+func readVecList(pl segment.VecPostingsList) ([]vecPair, error) {
 	itr := pl.Iterator(nil)
 	var out []vecPair
 	for {
